@@ -561,6 +561,23 @@ def overlap_shape(recs):
     return f"n{len(recs)}u{len(us)}d{max(depths, default=0)}x{min(cross, 9)}e{int(any(u == '' for u, _ in us))}"
 
 
+# Value classes that the seeded changes of rounds 5-18 turned on, collected in one place so that the workloads with small
+# private pools (C09-C13) can season them: each string is a legitimate CURIE prefix / URI prefix ("arbitrary strings").
+HOSTILE_P = ["", " ", "a b", "\ta", " a", "a ", "a\n", "é", "e\u0301", "\u212b", "\u2126", "ß", "SS", "ss", "ſ", "İ", "i\u0307", "0", "00", "None", "nan",
+             "null", "False", "[x", "x]", "[", "#", "#x", "@id", "@x", "_:", "_", "a,b", "a\\b", 'a"b', "a'b", "\ufeffa", "%41", "A", "a" * 70,
+             "a.b", "a-b", "3dmet", "a|b", "a.", ".a", "*", "a+", "(a)", "a?", "^a", "a$", "\u1100\u1161", "😀", "a/b", "a_b"]
+HOSTILE_U = ["", " ", "http://t/n/", "https://t/n/", "HTTP://T/n/", "http://T/n/", "http://t/n", "http://t/n/#", "http://t/N/", "u/\u0301", "ue\u0301/", "u\u00e9/",
+             "http://[", "http://[x]/", "urn:x:", "@", "@id", "?", "#", "/", "//", "://", "http://x/%41", "http://x/A", "http://x/a%20b/", "a,b/", "\\\\srv\\share\\",
+             "http://x/ ", " http://x/", "http://x/\n", "\ufeffhttp://x/", "http://x/?q=", "http://x/#", "http://x/a_", "http://x/a_b_", "file:///", "x" * 90 + "/",
+             "http://\u212b/", "http://x/\u1100\u1161/", "0", "None"]
+
+
+def hostile(rng, k=2, uri=False, exclude=()):
+    """k strings from HOSTILE_U / HOSTILE_P that do not contain any of `exclude` (e.g. the converter's delimiter)."""
+    pool = [x for x in (HOSTILE_U if uri else HOSTILE_P) if not any(e and e in x for e in exclude)]
+    return rng.sample(pool, k=min(k, len(pool)))
+
+
 def twins(s, uri=False):
     """Strings that are NOT s but that a lenient reader might take for s: another letter case, blanks at the edges, the
     other Unicode normalisation form, a byte order mark; for URIs the other of http / https and a trailing '/' or '#'
